@@ -21,34 +21,52 @@ IsRat(a) == /\ a \in Seq(Int) /\ Len(a) = 2 /\ a[2] > 0
             /\ GCD(Abs(a[1]), a[2]) = 1
 
 R(n)  == <<n, 1>>
-Q(n, d) == Norm(n, d)
 Zero  == <<0, 1>>
 One   == <<1, 1>>
 Two   == <<2, 1>>
 Half  == <<1, 2>>
+NaR   == <<0, 0>>             \* "not a rational": a value outside TLC's range; propagates
+IsNaR(a) == a[2] = 0
 
-Neg(a) == <<-a[1], a[2]>>
-
-Add(a, b) ==
-  IF a[2] = b[2] THEN Norm(a[1] + b[1], a[2])
+(* ---- reference definitions (pure TLA+) ----------------------------------- *)
+NegDef(a) == IF IsNaR(a) THEN NaR ELSE <<-a[1], a[2]>>
+AddDef(a, b) ==
+  IF IsNaR(a) \/ IsNaR(b) THEN NaR
+  ELSE IF a[2] = b[2] THEN Norm(a[1] + b[1], a[2])
   ELSE LET g  == GCD(a[2], b[2])
            da == a[2] \div g
            db == b[2] \div g
        IN  Norm(a[1] * db + b[1] * da, da * b[2])
-
-Sub(a, b) == Add(a, Neg(b))
-
-Mul(a, b) ==
-  IF a[1] = 0 \/ b[1] = 0 THEN Zero
+SubDef(a, b) == AddDef(a, NegDef(b))
+MulDef(a, b) ==
+  IF IsNaR(a) \/ IsNaR(b) THEN NaR
+  ELSE IF a[1] = 0 \/ b[1] = 0 THEN Zero
   ELSE LET g1 == GCD(Abs(a[1]), b[2])
            g2 == GCD(Abs(b[1]), a[2])
        IN  <<(a[1] \div g1) * (b[1] \div g2), (a[2] \div g2) * (b[2] \div g1)>>
+InvDef(a) == IF IsNaR(a) \/ a[1] = 0 THEN NaR ELSE IF a[1] < 0 THEN <<-a[2], -a[1]>> ELSE <<a[2], a[1]>>
+DivDef(a, b) == MulDef(a, InvDef(b))
+LtDef(a, b) == ~IsNaR(a) /\ ~IsNaR(b) /\ a[1] * b[2] < b[1] * a[2]
+LeDef(a, b) == ~IsNaR(a) /\ ~IsNaR(b) /\ a[1] * b[2] <= b[1] * a[2]
 
-Inv(a) == IF a[1] < 0 THEN <<-a[2], -a[1]>> ELSE <<a[2], a[1]>>   \* a # 0
-Div(a, b) == Mul(a, Inv(b))
+(* ---- the operators the specification uses --------------------------------- *)
+(* They are overridden by Rat.class (spec/Rat.java): the same functions in 64-bit *)
+(* arithmetic, returning NaR (and raising a per-thread flag) instead of aborting   *)
+(* when the normal form of a result leaves 32 bits.  MC_Oracle checks             *)
+(* JavaAgreesWithDef on a grid.  Without the class file the definitions below are  *)
+(* used and TLC aborts on overflow.                                               *)
+Neg(a) == NegDef(a)
+Add(a, b) == AddDef(a, b)
+Sub(a, b) == SubDef(a, b)
+Mul(a, b) == MulDef(a, b)
+Inv(a) == InvDef(a)
+Div(a, b) == DivDef(a, b)
+Lt(a, b) == LtDef(a, b)
+Le(a, b) == LeDef(a, b)
+OvfReset(x) == TRUE            \* Java: clears the overflow flag of this worker thread
+OvfSeen(x)  == FALSE           \* Java: was NaR produced / compared since the last reset?
 
-Lt(a, b) == a[1] * b[2] < b[1] * a[2]
-Le(a, b) == a[1] * b[2] <= b[1] * a[2]
+Q(n, d) == Norm(n, d)
 Gt(a, b) == Lt(b, a)
 Ge(a, b) == Le(b, a)
 IsZero(a) == a[1] = 0
